@@ -314,7 +314,40 @@ def BoundInRepeated(rng):
   return Prog([T, Sx, Qp, Cp, Rp]), ['Q', 'C', 'R'], ['fam_bound_in_repeated']
 
 
+def SiblingCombines(rng):
+  """Sibling aggregating expressions (and a negation) of one rule whose local
+  variables have the same name; the locals must stay apart."""
+  x, y = Var('x'), Var('y')
+  T = Facts('T', [(i,) for i in range(3)])
+  U = Facts('U', RandRows(rng, 2, lo=0, hi=2))
+  V = Facts('V', RandRows(rng, 2, lo=0, hi=2))
+  P = Pred('P', [Rule(
+      [('col0', x, ''), ('a', Var('a'), ''), ('b', Var('b'), '')],
+      [Atom('T', [('col0', x)]),
+       Unify(Var('a'), AggE('Sum', y, [Atom('U', [('col0', x), ('col1', y)])])),
+       Unify(Var('b'), AggE('Max', y, [Atom('V', [('col0', x), ('col1', y)])]))])])
+  Q = Pred('Q', [Rule(
+      [('col0', x, ''), ('c', Var('c'), '')],
+      [Atom('T', [('col0', x)]),
+       Unify(Var('c'), AggE('Count', y, [Atom('U', [('col0', x), ('col1', y)])])),
+       Neg([Atom('V', [('col0', x), ('col1', y)]),
+            Cmp(Op('>', y, Lit(N(1))))])])])
+  R = Pred('R', [Rule(
+      [('col0', x, ''), ('logica_value', Var('s'), 'Sum')],
+      [Atom('T', [('col0', x)]),
+       Unify(Var('s'), AggE('Sum', Op('+', y, Var('m')),
+                            [Atom('U', [('col0', x), ('col1', y)]),
+                             Unify(Var('m'), AggE('Max', Var('z'),
+                                                  [Atom('V', [('col0', y),
+                                                              ('col1', Var('z'))])]))])),
+       Unify(Var('t'), AggE('Min', Var('z'), [Atom('V', [('col0', x), ('col1', Var('z'))])]))],
+      True)])
+  return Prog([T, U, V, P, Q, R]), ['P', 'Q', 'R'], ['fam_sibling_combines',
+                                                      'fam_shared_local']
+
+
 SEM_FAMILIES = [('if_chain', IfChain), ('repeated_call', RepeatedCall),
+                ('sibling_combines', SiblingCombines),
                 ('double_negation', DoubleNegation),
                 ('bound_in_repeated', BoundInRepeated)]
 
